@@ -1,13 +1,15 @@
-    broadcast use {lemma_bcd_fold_overflow, lemma_shr4_le, lemma_and_0f_le};
+    broadcast use {lemma_bcd_fold_overflow, lemma_shr4_le, lemma_and_0f_le, lemma_u16_shr8};
 
     /// Contract of a value encoding (C17; used by C01, C03, C14).
     pub trait Encoding<T> {
         /// values the encoder is defined on
         spec fn enc_ok(v: &T) -> bool;
+        /// canonical domain (DESIGN.md §5.1): values the wire format can carry unchanged
+        spec fn canon(v: &T) -> bool;
         spec fn spec_enc(v: &T) -> Seq<u8>;
         /// decoder: (value, number of bytes consumed)
         spec fn spec_dec(b: Seq<u8>) -> Option<(T, int)>;
-        /// a successful decode of a non-empty input consumes at least one byte
+        /// every successful decode consumes at least one byte
         spec fn progresses() -> bool;
 
         //@ fn src:zvt_builder/src/encoding.rs | trait Encoding | encode | sig
@@ -22,13 +24,13 @@
         //@ tag dec.err C17 C02
                 Self::spec_dec(bytes@) is None ==> r is Err,
         //@ tag dec.progress C02
-                Self::progresses() && bytes@.len() > 0 ==> (r matches Ok((v2, rest)) ==> rest@.len() < bytes@.len()),
+                Self::progresses() ==> (r matches Ok((v2, rest)) ==> rest@.len() < bytes@.len()),
         //@ end
 
         //@ tag enc.law_inverse C17 C01
         /// decode(encode(v)) == v, consuming exactly the encoding
         proof fn law_inverse(v: &T)
-            requires Self::enc_ok(v),
+            requires Self::enc_ok(v), Self::canon(v),
             ensures Self::spec_dec(Self::spec_enc(v)) == Some((*v, Self::spec_enc(v).len() as int));
         //@ untag
     }
@@ -38,3 +40,209 @@
     //@ item src:zvt_builder/src/encoding.rs | struct BigEndian
     //@ include u1_enc_ints.tpl
     //@ include u1_enc_bcd.tpl
+
+    // ------------------------------------------------------------------ Tag (BMP number / TLV tag)
+    /// a tag travels as two bytes iff its high byte is 0x1f or 0xff
+    pub open spec fn tag_is_two_byte(t: u16) -> bool { t / 256 == 0x1f || t / 256 == 0xff }
+    impl encoding::Encoding<Tag> for Default {
+        /// representable: two-byte tags 1fxx / ffxx, and one-byte tags other than 1f and ff
+        open spec fn enc_ok(v: &Tag) -> bool { tag_is_two_byte(v.0) || (v.0 < 256 && v.0 != 0x1f && v.0 != 0xff) }
+        open spec fn canon(v: &Tag) -> bool { true }
+        open spec fn spec_enc(v: &Tag) -> Seq<u8> {
+            if tag_is_two_byte(v.0) { be_seq2(v.0 as nat) } else { seq![v.0 as u8] }
+        }
+        open spec fn spec_dec(b: Seq<u8>) -> Option<(Tag, int)> {
+            if b.len() < 1 { None }
+            else if b[0] == 0x1f || b[0] == 0xff {
+                if b.len() < 2 { None } else { Some((Tag(be_val2(b.subrange(0, 2)) as u16), 2)) }
+            } else { Some((Tag(b[0] as u16), 1)) }
+        }
+        open spec fn progresses() -> bool { true }
+        //@ fn src:zvt_builder/src/encoding.rs | impl encoding::Encoding<Tag> for Default | encode
+        //@ end
+        //@ fn src:zvt_builder/src/encoding.rs | impl encoding::Encoding<Tag> for Default | decode | props=C02
+        //@ end
+        //@ tag enc.law_inverse.tag C17 C01
+        proof fn law_inverse(v: &Tag) {
+            if tag_is_two_byte(v.0) {
+                lemma_be2_inv(v.0 as nat);
+                assert(be_seq2(v.0 as nat).subrange(0, 2) =~= be_seq2(v.0 as nat));
+            }
+        }
+        //@ untag
+    }
+    impl encoding::Encoding<Tag> for BigEndian {
+        open spec fn enc_ok(v: &Tag) -> bool { true }
+        open spec fn canon(v: &Tag) -> bool { true }
+        /// always two bytes, big endian (class, instruction)
+        open spec fn spec_enc(v: &Tag) -> Seq<u8> { be_seq2(v.0 as nat) }
+        open spec fn spec_dec(b: Seq<u8>) -> Option<(Tag, int)> {
+            if b.len() < 2 { None } else { Some((Tag(be_val2(b.subrange(0, 2)) as u16), 2)) }
+        }
+        open spec fn progresses() -> bool { true }
+        //@ fn src:zvt_builder/src/encoding.rs | impl encoding::Encoding<Tag> for BigEndian | encode
+        //@ end
+        //@ fn src:zvt_builder/src/encoding.rs | impl encoding::Encoding<Tag> for BigEndian | decode | props=C02
+        //@ end
+        //@ tag enc.law_inverse.tagbe C17 C01
+        proof fn law_inverse(v: &Tag) {
+            lemma_be2_inv(v.0 as nat);
+            assert(be_seq2(v.0 as nat).subrange(0, 2) =~= be_seq2(v.0 as nat));
+        }
+        //@ untag
+    }
+
+    // ------------------------------------------------------------------ blanket Option<T> / Vec<T>
+    impl<T, E> Encoding<Option<T>> for E
+    where
+        E: Encoding<T>,
+    {
+        open spec fn enc_ok(v: &Option<T>) -> bool { match v { None => true, Some(i) => E::enc_ok(i) } }
+        /// an absent value encodes to nothing, which does not decode to `None` at this level
+        open spec fn canon(v: &Option<T>) -> bool { match v { None => false, Some(i) => E::canon(i) } }
+        open spec fn spec_enc(v: &Option<T>) -> Seq<u8> { match v { None => Seq::<u8>::empty(), Some(i) => E::spec_enc(i) } }
+        open spec fn spec_dec(b: Seq<u8>) -> Option<(Option<T>, int)> {
+            match E::spec_dec(b) { None => None, Some((v, k)) => Some((Some(v), k)) }
+        }
+        open spec fn progresses() -> bool { E::progresses() }
+        //@ fn src:zvt_builder/src/encoding.rs | impl Encoding<Option<T>> for E | decode | props=C02
+        //@ end
+        //@ fn src:zvt_builder/src/encoding.rs | impl Encoding<Option<T>> for E | encode
+        //@ end
+        //@ tag enc.law_inverse.option C01
+        proof fn law_inverse(v: &Option<T>) {
+            match v { Some(i) => { E::law_inverse(i); } None => { } }
+        }
+        //@ untag
+    }
+    /// Blanket `Vec<T>` encoding. NOT VERIFIED (trusted shell): the encoder uses iterator adapters and
+    /// the decoder loops without a progress guard (finding D5). Unreachable from every shipped packet
+    /// type: `Vec` fields are (de)serialised by `ZvtSerializerImpl for Vec<T>`, never through this impl.
+    impl<T, E> Encoding<Vec<T>> for E
+    where
+        E: Encoding<T>,
+    {
+        open spec fn enc_ok(v: &Vec<T>) -> bool { false }
+        open spec fn canon(v: &Vec<T>) -> bool { false }
+        uninterp spec fn spec_enc(v: &Vec<T>) -> Seq<u8>;
+        open spec fn spec_dec(b: Seq<u8>) -> Option<(Vec<T>, int)> { vec_blanket_dec::<T, E>(b) }
+        open spec fn progresses() -> bool { false }
+        //@ fn src:zvt_builder/src/encoding.rs | impl Encoding<Vec<T>> for E | encode | ext
+        //@ end
+        //@ fn src:zvt_builder/src/encoding.rs | impl Encoding<Vec<T>> for E | decode | ext
+        //@ end
+        proof fn law_inverse(v: &Vec<T>) {}
+    }
+    pub uninterp spec fn vec_blanket_dec<T, E: Encoding<T>>(b: Seq<u8>) -> Option<(Vec<T>, int)>;
+
+    // ------------------------------------------------------------------ text (external crates: yore CP437, hex) — trusted, T3
+    pub uninterp spec fn cp437_enc(v: &String) -> Seq<u8>;
+    pub uninterp spec fn cp437_dec(b: Seq<u8>) -> String;
+    /// encodable in CP437 and not ending in NUL
+    pub uninterp spec fn cp437_canon(v: &String) -> bool;
+    impl Encoding<String> for Default {
+        open spec fn enc_ok(v: &String) -> bool { cp437_canon(v) }
+        open spec fn canon(v: &String) -> bool { cp437_canon(v) }
+        open spec fn spec_enc(v: &String) -> Seq<u8> { cp437_enc(v) }
+        /// total; consumes the entire input
+        open spec fn spec_dec(b: Seq<u8>) -> Option<(String, int)> { Some((cp437_dec(b), b.len() as int)) }
+        open spec fn progresses() -> bool { false }
+        //@ fn src:zvt_builder/src/encoding.rs | impl Encoding<String> for Default | encode | ext
+        //@ end
+        //@ fn src:zvt_builder/src/encoding.rs | impl Encoding<String> for Default | decode | ext
+        //@ end
+        #[verifier::external_body]
+        proof fn law_inverse(v: &String) {}
+    }
+    //@ item src:zvt_builder/src/encoding.rs | struct Hex
+    pub uninterp spec fn hex_enc(v: &String) -> Seq<u8>;
+    pub uninterp spec fn hex_dec(b: Seq<u8>) -> String;
+    /// lower-case hex digits, even length
+    pub uninterp spec fn hex_canon(v: &String) -> bool;
+    impl Encoding<String> for Hex {
+        open spec fn enc_ok(v: &String) -> bool { hex_canon(v) }
+        open spec fn canon(v: &String) -> bool { hex_canon(v) }
+        open spec fn spec_enc(v: &String) -> Seq<u8> { hex_enc(v) }
+        open spec fn spec_dec(b: Seq<u8>) -> Option<(String, int)> { Some((hex_dec(b), b.len() as int)) }
+        open spec fn progresses() -> bool { false }
+        //@ fn src:zvt_builder/src/encoding.rs | impl Encoding<String> for Hex | encode | ext
+        //@ end
+        //@ fn src:zvt_builder/src/encoding.rs | impl Encoding<String> for Hex | decode | ext
+        //@ end
+        #[verifier::external_body]
+        proof fn law_inverse(v: &String) {}
+    }
+
+    // ------------------------------------------------------------------ zvt_serializer_registry! (empty impls inheriting the default bodies)
+    impl<L: length::Length, E: encoding::Encoding<u8>, TE: encoding::Encoding<Tag>> ZvtSerializerImpl<L, E, TE> for u8 {
+        open spec fn ser_pre(&self, tag: Option<Tag>) -> bool { default_ser_pre::<Self, L, E, TE>(self, tag) }
+        open spec fn spec_ser_tagged(&self, tag: Option<Tag>) -> Seq<u8> { default_spec_ser::<Self, L, E, TE>(self, tag) }
+        open spec fn deser_pre(tag: Option<Tag>) -> bool { L::wf() }
+        open spec fn deser_progresses(tag: Option<Tag>) -> bool { tag is Some && TE::progresses() }
+        open spec fn deser_defined(b: Seq<u8>, tag: Option<Tag>) -> bool { default_spec_deser::<Self, L, E, TE>(b, tag) is Some }
+        open spec fn deser_ok(b: Seq<u8>, tag: Option<Tag>, v: Self, k: int) -> bool { default_spec_deser::<Self, L, E, TE>(b, tag) == Some((v, k)) }
+        //@ fn src:zvt_builder/src/lib.rs | trait ZvtSerializerImpl | serialize_tagged
+        //@ end
+        //@ fn src:zvt_builder/src/lib.rs | trait ZvtSerializerImpl | deserialize_tagged | props=C02
+        //@ end
+    }
+    impl<L: length::Length, E: encoding::Encoding<u16>, TE: encoding::Encoding<Tag>> ZvtSerializerImpl<L, E, TE> for u16 {
+        open spec fn ser_pre(&self, tag: Option<Tag>) -> bool { default_ser_pre::<Self, L, E, TE>(self, tag) }
+        open spec fn spec_ser_tagged(&self, tag: Option<Tag>) -> Seq<u8> { default_spec_ser::<Self, L, E, TE>(self, tag) }
+        open spec fn deser_pre(tag: Option<Tag>) -> bool { L::wf() }
+        open spec fn deser_progresses(tag: Option<Tag>) -> bool { tag is Some && TE::progresses() }
+        open spec fn deser_defined(b: Seq<u8>, tag: Option<Tag>) -> bool { default_spec_deser::<Self, L, E, TE>(b, tag) is Some }
+        open spec fn deser_ok(b: Seq<u8>, tag: Option<Tag>, v: Self, k: int) -> bool { default_spec_deser::<Self, L, E, TE>(b, tag) == Some((v, k)) }
+        //@ fn src:zvt_builder/src/lib.rs | trait ZvtSerializerImpl | serialize_tagged
+        //@ end
+        //@ fn src:zvt_builder/src/lib.rs | trait ZvtSerializerImpl | deserialize_tagged | props=C02
+        //@ end
+    }
+    impl<L: length::Length, E: encoding::Encoding<u32>, TE: encoding::Encoding<Tag>> ZvtSerializerImpl<L, E, TE> for u32 {
+        open spec fn ser_pre(&self, tag: Option<Tag>) -> bool { default_ser_pre::<Self, L, E, TE>(self, tag) }
+        open spec fn spec_ser_tagged(&self, tag: Option<Tag>) -> Seq<u8> { default_spec_ser::<Self, L, E, TE>(self, tag) }
+        open spec fn deser_pre(tag: Option<Tag>) -> bool { L::wf() }
+        open spec fn deser_progresses(tag: Option<Tag>) -> bool { tag is Some && TE::progresses() }
+        open spec fn deser_defined(b: Seq<u8>, tag: Option<Tag>) -> bool { default_spec_deser::<Self, L, E, TE>(b, tag) is Some }
+        open spec fn deser_ok(b: Seq<u8>, tag: Option<Tag>, v: Self, k: int) -> bool { default_spec_deser::<Self, L, E, TE>(b, tag) == Some((v, k)) }
+        //@ fn src:zvt_builder/src/lib.rs | trait ZvtSerializerImpl | serialize_tagged
+        //@ end
+        //@ fn src:zvt_builder/src/lib.rs | trait ZvtSerializerImpl | deserialize_tagged | props=C02
+        //@ end
+    }
+    impl<L: length::Length, E: encoding::Encoding<u64>, TE: encoding::Encoding<Tag>> ZvtSerializerImpl<L, E, TE> for u64 {
+        open spec fn ser_pre(&self, tag: Option<Tag>) -> bool { default_ser_pre::<Self, L, E, TE>(self, tag) }
+        open spec fn spec_ser_tagged(&self, tag: Option<Tag>) -> Seq<u8> { default_spec_ser::<Self, L, E, TE>(self, tag) }
+        open spec fn deser_pre(tag: Option<Tag>) -> bool { L::wf() }
+        open spec fn deser_progresses(tag: Option<Tag>) -> bool { tag is Some && TE::progresses() }
+        open spec fn deser_defined(b: Seq<u8>, tag: Option<Tag>) -> bool { default_spec_deser::<Self, L, E, TE>(b, tag) is Some }
+        open spec fn deser_ok(b: Seq<u8>, tag: Option<Tag>, v: Self, k: int) -> bool { default_spec_deser::<Self, L, E, TE>(b, tag) == Some((v, k)) }
+        //@ fn src:zvt_builder/src/lib.rs | trait ZvtSerializerImpl | serialize_tagged
+        //@ end
+        //@ fn src:zvt_builder/src/lib.rs | trait ZvtSerializerImpl | deserialize_tagged | props=C02
+        //@ end
+    }
+    impl<L: length::Length, E: encoding::Encoding<usize>, TE: encoding::Encoding<Tag>> ZvtSerializerImpl<L, E, TE> for usize {
+        open spec fn ser_pre(&self, tag: Option<Tag>) -> bool { default_ser_pre::<Self, L, E, TE>(self, tag) }
+        open spec fn spec_ser_tagged(&self, tag: Option<Tag>) -> Seq<u8> { default_spec_ser::<Self, L, E, TE>(self, tag) }
+        open spec fn deser_pre(tag: Option<Tag>) -> bool { L::wf() }
+        open spec fn deser_progresses(tag: Option<Tag>) -> bool { tag is Some && TE::progresses() }
+        open spec fn deser_defined(b: Seq<u8>, tag: Option<Tag>) -> bool { default_spec_deser::<Self, L, E, TE>(b, tag) is Some }
+        open spec fn deser_ok(b: Seq<u8>, tag: Option<Tag>, v: Self, k: int) -> bool { default_spec_deser::<Self, L, E, TE>(b, tag) == Some((v, k)) }
+        //@ fn src:zvt_builder/src/lib.rs | trait ZvtSerializerImpl | serialize_tagged
+        //@ end
+        //@ fn src:zvt_builder/src/lib.rs | trait ZvtSerializerImpl | deserialize_tagged | props=C02
+        //@ end
+    }
+    impl<L: length::Length, E: encoding::Encoding<String>, TE: encoding::Encoding<Tag>> ZvtSerializerImpl<L, E, TE> for String {
+        open spec fn ser_pre(&self, tag: Option<Tag>) -> bool { default_ser_pre::<Self, L, E, TE>(self, tag) }
+        open spec fn spec_ser_tagged(&self, tag: Option<Tag>) -> Seq<u8> { default_spec_ser::<Self, L, E, TE>(self, tag) }
+        open spec fn deser_pre(tag: Option<Tag>) -> bool { L::wf() }
+        open spec fn deser_progresses(tag: Option<Tag>) -> bool { tag is Some && TE::progresses() }
+        open spec fn deser_defined(b: Seq<u8>, tag: Option<Tag>) -> bool { default_spec_deser::<Self, L, E, TE>(b, tag) is Some }
+        open spec fn deser_ok(b: Seq<u8>, tag: Option<Tag>, v: Self, k: int) -> bool { default_spec_deser::<Self, L, E, TE>(b, tag) == Some((v, k)) }
+        //@ fn src:zvt_builder/src/lib.rs | trait ZvtSerializerImpl | serialize_tagged
+        //@ end
+        //@ fn src:zvt_builder/src/lib.rs | trait ZvtSerializerImpl | deserialize_tagged | props=C02
+        //@ end
+    }
